@@ -13,7 +13,7 @@ MODELS = tuple(known_decay_models)
 # digit, a one-letter name, a name with a dash inside
 FAMILY = ("CB3PI", "PHSP_X", "MY-MODEL", "BSTD_2", "X", "PHSP-X", "SVS-2", "ISGW22", "D_DALITZ_NEW", "TAUOLA-1")
 ALL = MODELS + FAMILY
-R_ACCEPT = [len(ALL), 2, 3, 2]
+R_ACCEPT = [len(ALL), 2, 3, 3]
 N_ACCEPT = prod(R_ACCEPT)
 
 
@@ -21,13 +21,13 @@ def body_accept(sel: int) -> bool:
     """name x PHOTOS x parameters (none / numbers / a label extending a model name) x (family registered or not)"""
     ni, ph, pv, reg = digits(sel, R_ACCEPT)
     name = ALL[ni]
-    if name in FAMILY:
+    if name in FAMILY and reg == 0:
         reg = 1
     params = ["", " 1.0 -0.5", " PHSPx SVS_2 HELAMP3"][pv]
     pexp = ["", [1.0, -0.5], ["PHSPx", "SVS_2", "HELAMP3"]][pv]
     text = f"Decay B0sig\n0.5 PHSPa K_PHSP {'PHOTOS ' if ph else ''}{name}{params};\n0.5 pi+ pi- {name} ;\nEnddecay\n"
     try:
-        p = parse(text, extra_models=FAMILY if reg else ())
+        p = parse(text, extra_models=FAMILY if reg else (), split_registration=(reg == 2))
     except Exception as e:
         return fail(f"model {name!r} not accepted (registered={bool(reg)}): {type(e).__name__}: {str(e)[:120]}")
     got = details(p, "B0sig")
